@@ -4,7 +4,7 @@
 set -e
 cd "$(dirname "$0")"
 export CARGO_NET_OFFLINE=true
-( cd coq && coq_makefile -f _CoqProject -o Makefile >/dev/null && timeout 3000 make -j"$(nproc)" > ../.setup_coq.log 2>&1 ) || { tail -40 .setup_coq.log; echo "coq build failed"; exit 1; }
+( cd coq && coq_makefile -f _CoqProject -o Makefile >/dev/null && timeout 7200 make -j"$(nproc)" > ../.setup_coq.log 2>&1 ) || { tail -40 .setup_coq.log; echo "coq build failed"; exit 1; }
 python3 - <<'PY'
 import vlib
 vlib.build_driver()
